@@ -56,6 +56,12 @@ Proof.
 Qed.
 Print Assumptions core_leaves_are_original.
 
+(* computeClauses answers (the fuel 1 + sum of chain lengths is enough) whenever every clause reference in the proof
+   resolves: None then only stands for the failed asserted lookup of the code. *)
+Theorem core_traversal_total : forall undef P, closed_proof P -> pfind undef P <> None -> computeClauses undef P <> None.
+Proof. intros undef P. exact (computeClauses_total P undef). Qed.
+Print Assumptions core_traversal_total.
+
 (* masks_correct cannot be dropped, and it is about the partition map AT THE TIME THE CORE IS BUILT: a term that
    is asserted a second time gets a new index (FlaPartitionMap::store_top_level_fla_index overwrites), the
    clauses of its first assertion keep the old bit, and the extracted set becomes satisfiable although the
